@@ -82,14 +82,30 @@ enum Level {
     AltGr,
 }
 
+/// Does the oracle say this key is a cased-letter key (lowercase base whose uppercase is the
+/// shift level)? For such keys CapsLock inverts which of the two levels Shift selects (C10).
+fn oracle_cased(cell: &lt::Cell) -> bool {
+    match (cell.base.first(), cell.shift.first()) {
+        (Some(b), Some(s)) => {
+            let mut up = b.to_uppercase();
+            b.is_lowercase() && matches!((up.next(), up.next()), (Some(u), None) if u == s && u != b)
+        }
+        _ => false,
+    }
+}
+
 fn c03_cell(run: &mut Run, l: usize, f: Form, cell: &lt::Cell, bits: u16, h: HandleControl, skipped: &mut u64) {
     let fa = facts(bits);
     let base_letter = matches!(cell.base.first(), Some(c) if c.is_ascii_lowercase());
-    if fa.caps || (fa.shift && fa.altgr) || (h == HandleControl::MapLettersToUnicode && fa.ctrl && base_letter) {
+    if (fa.shift && fa.altgr) || (h == HandleControl::MapLettersToUnicode && fa.ctrl && base_letter) {
         *skipped += 1;
         return;
     }
-    let level = if fa.altgr { Level::AltGr } else if fa.shift { Level::Shift } else { Level::Base };
+    // "whatever the lock flags are": CapsLock does not select a level, except that on a
+    // cased-letter key it inverts Shift (C10), so the expected character of the base/shift
+    // levels swaps there.
+    let eff_shift = fa.shift ^ (fa.caps && oracle_cased(cell));
+    let level = if fa.altgr { Level::AltGr } else if eff_shift { Level::Shift } else { Level::Base };
     run.eval(1);
     let k = cell.key;
     let got = out(l, f, k, bits, h);
@@ -99,10 +115,8 @@ fn c03_cell(run: &mut Run, l: usize, f: Form, cell: &lt::Cell, bits: u16, h: Han
         Level::Base | Level::Shift => {
             let want = if level == Level::Base { &cell.base } else { &cell.shift };
             if let Want::OneOf(v) = want {
-                if level == Level::Base || true {
-                    if v.first().copied() != us {
-                        run.nontrivial_fp(fp(&("c03", l, key_idx(k), level as u8)));
-                    }
+                if v.first().copied() != us {
+                    run.nontrivial_fp(fp(&("c03", l, key_idx(k), level as u8)));
                 }
             }
             let ok = match &got {
@@ -117,22 +131,24 @@ fn c03_cell(run: &mut Run, l: usize, f: Form, cell: &lt::Cell, bits: u16, h: Han
         }
         Level::AltGr => {
             run.nontrivial_fp(fp(&("c03", l, key_idx(k), 2u8)));
-            let own_base = out(l, f, k, M_NUMLOCK, HandleControl::Ignore);
-            let distinct = match (&got, &own_base) {
-                (Ok(a), Ok(b)) => a != b,
-                _ => true,
-            };
-            if !distinct {
+            // does the layout give this key an AltGr level at all? (layout-level fact, read off
+            // the canonical state) — or does it produce a distinct character in this very state?
+            let canon_base = out(l, f, k, M_NUMLOCK, HandleControl::Ignore);
+            let canon_altgr = out(l, f, k, M_NUMLOCK | M_RALT, HandleControl::Ignore);
+            let has_level = canon_base != canon_altgr;
+            let here_without = out(l, f, k, bits & !(M_RALT | M_LALT), h);
+            let distinct_here = got != here_without;
+            if !has_level && !distinct_here {
                 return;
             }
             let (ok, want) = match &cell.altgr {
                 AltGrWant::Any => (true, "any".to_string()),
-                AltGrWant::NoLevel => (false, format!("no-AltGr-char(={})", out_str(&own_base))),
+                AltGrWant::NoLevel => (false, format!("no-AltGr-char(={})", out_str(&here_without))),
                 AltGrWant::Char(c) => (matches!(&got, Ok(DecodedKey::Unicode(g)) if g == c), format!("U+{:04X}", *c as u32)),
             };
             if !ok {
                 cell_violation(run, "C03", "altgr", l, f, k, bits, h, &want, &got,
-                    format!("{} ({}): key {:?} with AltGr (modifiers {}, mode {}) types {}, a character distinct from its base level {}; the national layout's AltGr level for this key is {}", name, form_name(f), k, mods_str(bits), mode_name(h), out_str(&got), out_str(&own_base), want));
+                    format!("{} ({}): key {:?} with AltGr (modifiers {}, mode {}) types {} (without AltGr: {}; the layout {} this key an AltGr level); the national layout's AltGr level for this key is {}", name, form_name(f), k, mods_str(bits), mode_name(h), out_str(&got), out_str(&here_without), if has_level { "gives" } else { "does not otherwise give" }, want));
             }
         }
     }
@@ -213,7 +229,7 @@ fn c03_e2e(run: &mut Run, l: usize, cell: &lt::Cell, level: Level, set2: bool, p
 }
 
 pub fn c03(run: &mut Run) {
-    run.rule = "Exhaustive: 10 layouts x the 47-49 main-block character keys of each layout's oracle table x all 512 modifier records x 2 Ctrl modes x 3 object forms (bare, AnyLayout, &AnyLayout). Each case is classified by level (base = no Shift, no AltGr; shift; AltGr = right Alt or left Alt+Ctrl, without Shift) and compared with the national-layout table transcribed from the references the crate cites; cases with CapsLock on, with Shift+AltGr, or with Ctrl being mapped on a letter key are skipped and counted. AltGr level: required only where the layout's AltGr output differs from its own base output. Plus end-to-end typing scripts for every (layout, key, level) through Set 2 and Set 1 bytes into Keyboard<AnyLayout, SetN>. Non-trivial = (layout, key, level) whose expected character differs from the US layout's for that key and level, or AltGr level; distinct by that triple.".into();
+    run.rule = "Exhaustive: 10 layouts x the 47-49 main-block character keys of each layout's oracle table x all 512 modifier records x 2 Ctrl modes x 3 object forms (bare, AnyLayout, &AnyLayout). Each case is classified by level (base = no Shift, no AltGr; shift; AltGr = right Alt or left Alt+Ctrl, without Shift) and compared with the national-layout table transcribed from the references the crate cites; CapsLock does not select a level except that on cased-letter keys (per the oracle table) it swaps the base and shift expectation; cases with Shift+AltGr, or with Ctrl being mapped on a letter key, are skipped and counted. AltGr level: required wherever the layout gives the key an AltGr level at all (its canonical AltGr output differs from its canonical base output) or produces a distinct character in the state at hand. Plus end-to-end typing scripts for every (layout, key, level) through Set 2 and Set 1 bytes into Keyboard<AnyLayout, SetN>. Non-trivial = (layout, key, level) whose expected character differs from the US layout's for that key and level, or AltGr level; distinct by that triple.".into();
     run.assumptions = vec![
         "national-layout tables are the author's transcription of the standards (sealed sandbox); cells where references disagree are unconstrained: Uk Oem8 AltGr, Azerty Oem8/Oem4 AltGr + Oem8 Shift, Jis Key0/OemPlus Shift, Jis Oem12/Oem13 base accept backslash or yen, Colemak AltGr layer, Shift+AltGr everywhere".into(),
         "dead keys are expected as their spacing character (the crate documents no dead-key support)".into(),
@@ -241,7 +257,7 @@ pub fn c03(run: &mut Run) {
             }
         }
     }
-    run.part("table_cells", json!({"keys_per_layout": per_layout, "layout_key_cells": cells, "skipped(capslock|shift+altgr|ctrl-mapped)": skipped}));
+    run.part("table_cells", json!({"keys_per_layout": per_layout, "layout_key_cells": cells, "skipped(shift+altgr|ctrl-mapped)": skipped}));
     let mut pre = 0u64;
     let mut scripts = 0u64;
     for l in 0..N_LAYOUTS {
@@ -345,7 +361,7 @@ fn c09_cell(run: &mut Run, l: usize, k: KeyCode, bits: u16, letter: Option<char>
 }
 
 pub fn c09(run: &mut Run) {
-    run.rule = "Exhaustive: 10 layouts x 124 keys x 512 modifier records x 2 modes. The letter of a key is what the layout itself types at the bare base level (a..z). R0: mapping enabled, either Ctrl held, no Alt/AltGr, letter key => U+0001..U+001A of that letter for every Shift/CapsLock/NumLock/hidden-flag value. R1: Ctrl not held => output identical in both modes. R2: non-letter key => output identical in both modes for every modifier record. R3: mapping disabled => output identical with Ctrl held and released (AltGr fact preserved). Non-trivial = case with Ctrl held; distinct = (layout, key, abstract modifier class).".into();
+    run.rule = "Exhaustive: 10 layouts x 124 keys x 512 modifier records x 2 modes. The letter of a key is what the layout itself types at the bare base level (a..z). R0: mapping enabled, either Ctrl held, no Alt/AltGr, letter key => U+0001..U+001A of that letter for every Shift/CapsLock/NumLock/hidden-flag value. R1: Ctrl not held => output identical in both modes. R2: non-letter key => output identical in both modes for every modifier record. R3: mapping disabled => output identical with Ctrl held and released (AltGr fact preserved). Event-history layer: all sequences of <= 4 events over {LCtrl, RCtrl, LShift down/up, CapsLock, F1} followed by a press of a letter key through Keyboard::process_keyevent; Ctrl counts as held iff one of the two Ctrl keys is held per the history. Non-trivial = case with Ctrl held; distinct = (layout, key, abstract modifier class).".into();
     run.assumptions = vec!["'the letter the layout types' is read off the layout's own bare output, which keeps C09 independent of C03's tables".into()];
     let mut letters = BTreeMap::new();
     for l in 0..N_LAYOUTS {
@@ -366,6 +382,7 @@ pub fn c09(run: &mut Run) {
         letters.insert(LAYOUT_NAMES[l], n);
     }
     run.part("cells", json!({"letter_keys_per_layout": letters, "cells": N_LAYOUTS * ALL_KEYS.len() * 512}));
+    c09_histories(run);
     run.exhaustive = true;
 }
 
@@ -426,7 +443,7 @@ fn c10_cell(run: &mut Run, l: usize, k: KeyCode, bits: u16, h: HandleControl, ca
 }
 
 pub fn c10(run: &mut Run) {
-    run.rule = "Exhaustive: 10 layouts x 124 keys x the 256 modifier records with CapsLock off, each paired with its CapsLock-on twin, x 2 modes. A key is a cased-letter key iff its bare output is a lowercase character whose single-character uppercase is its bare Shift output. Cased-letter key: out(m + CapsLock) = out(m with the Shift fact inverted). Any other key: out(m + CapsLock) = out(m). Non-trivial = twin pair on a cased-letter key or on a key whose Shift output differs from its base output; distinct = (layout, key, modifier record, mode).".into();
+    run.rule = "Exhaustive: 10 layouts x 124 keys x the 256 modifier records with CapsLock off, each paired with its CapsLock-on twin, x 2 modes. A key is a cased-letter key iff its bare output is a lowercase character whose single-character uppercase is its bare Shift output. Cased-letter key: out(m + CapsLock) = out(m with the Shift fact inverted). Any other key: out(m + CapsLock) = out(m). Event-history layer: all sequences of <= 4 events over {CapsLock, LShift, RShift} x {down, up} followed by a key press through Keyboard::process_keyevent (CapsLock = parity of its presses, Shift = any shift key held, per the history). Non-trivial = twin pair on a cased-letter key or on a key whose Shift output differs from its base output; distinct = (layout, key, modifier record, mode).".into();
     run.assumptions = vec!["cased-letter classification uses Unicode simple case mapping (char::to_uppercase with a single-character result)".into()];
     let mut ncased = BTreeMap::new();
     for l in 0..N_LAYOUTS {
@@ -448,6 +465,7 @@ pub fn c10(run: &mut Run) {
         ncased.insert(LAYOUT_NAMES[l], n);
     }
     run.part("cells", json!({"cased_letter_keys_per_layout": ncased, "twin_pairs": N_LAYOUTS * ALL_KEYS.len() * 256 * 2}));
+    c10_histories(run);
     run.exhaustive = true;
 }
 
@@ -603,16 +621,11 @@ fn decimal_separators(l: usize) -> Vec<char> {
     }
 }
 
-fn c15_cell(run: &mut Run, l: usize, k: KeyCode, bits: u16, h: HandleControl) {
-    let f = Form::Bare;
-    let got = out(l, f, k, bits, h);
-    run.eval(1);
+/// What C15 admits for key `k` in modifier record `bits` (None: key not in C15's scope).
+fn c15_accepted(l: usize, k: KeyCode, bits: u16, h: HandleControl) -> Option<Vec<DecodedKey>> {
     let fa = facts(bits);
-    if !fa.num || fa.shift || fa.ctrl || bits & (M_LALT | M_RALT) != 0 {
-        run.nontrivial_fp(fp(&("c15", l, key_idx(k), bits, mode_idx(h))));
-    }
     let uni = |c: char| vec![DecodedKey::Unicode(c)];
-    let accepted: Vec<DecodedKey> = if let Some((d, alias)) = numpad_digit(k) {
+    Some(if let Some((d, alias)) = numpad_digit(k) {
         if fa.num {
             uni(d)
         } else {
@@ -627,7 +640,7 @@ fn c15_cell(run: &mut Run, l: usize, k: KeyCode, bits: u16, h: HandleControl) {
             KeyCode::NumpadMultiply => uni('*'),
             KeyCode::NumpadSubtract => uni('-'),
             KeyCode::NumpadAdd => uni('+'),
-            KeyCode::NumpadEnter => match out(l, f, KeyCode::Return, bits, h) {
+            KeyCode::NumpadEnter => match out(l, Form::Bare, KeyCode::Return, bits, h) {
                 Ok(d) => vec![d],
                 Err(_) => vec![],
             },
@@ -645,9 +658,20 @@ fn c15_cell(run: &mut Run, l: usize, k: KeyCode, bits: u16, h: HandleControl) {
             KeyCode::Return => uni('\u{0A}'),
             KeyCode::Delete => uni('\u{7F}'),
             KeyCode::Spacebar => uni(' '),
-            _ => return,
+            _ => return None,
         }
-    };
+    })
+}
+
+fn c15_cell(run: &mut Run, l: usize, k: KeyCode, bits: u16, h: HandleControl) {
+    let f = Form::Bare;
+    let got = out(l, f, k, bits, h);
+    run.eval(1);
+    let fa = facts(bits);
+    if !fa.num || fa.shift || fa.ctrl || bits & (M_LALT | M_RALT) != 0 {
+        run.nontrivial_fp(fp(&("c15", l, key_idx(k), bits, mode_idx(h))));
+    }
+    let Some(accepted) = c15_accepted(l, k, bits, h) else { return };
     let ok = matches!(&got, Ok(d) if accepted.contains(d));
     if !ok {
         let want = accepted.iter().map(dk_str).collect::<Vec<_>>().join("|");
@@ -657,7 +681,7 @@ fn c15_cell(run: &mut Run, l: usize, k: KeyCode, bits: u16, h: HandleControl) {
 }
 
 pub fn c15(run: &mut Run) {
-    run.rule = "Exhaustive: 10 layouts x (17 numpad keys + Escape, Backspace, Tab, Return, Delete, Space) x 512 modifier records x 2 modes against the numpad / editing-key table of the property statement: digits with NumLock on, Insert/End/Down/PageDown/Left/Right/Home/Up/PageUp as raw keys with it off (Numpad5 off: '5' or its own raw key), operators / * - + always, NumpadEnter = what Return yields in the same state, decimal key = the layout's separator (',' for No105/FiSe105, '.' elsewhere; De105: either) with NumLock on and U+007F with it off, editing keys U+001B/0008/0009/000A/007F/0020. Non-trivial = case with NumLock off or any of Shift/Ctrl/Alt/AltGr held; distinct = (layout, key, record, mode).".into();
+    run.rule = "Exhaustive: 10 layouts x (17 numpad keys + Escape, Backspace, Tab, Return, Delete, Space) x 512 modifier records x 2 modes against the numpad / editing-key table of the property statement: digits with NumLock on, Insert/End/Down/PageDown/Left/Right/Home/Up/PageUp as raw keys with it off (Numpad5 off: '5' or its own raw key), operators / * - + always, NumpadEnter = what Return yields in the same state, decimal key = the layout's separator (',' for No105/FiSe105, '.' elsewhere; De105: either) with NumLock on and U+007F with it off, editing keys U+001B/0008/0009/000A/007F/0020. Event-history layer: each of the 512 modifier records reached by a witness history of key events, then the key pressed through Keyboard::process_keyevent. Non-trivial = case with NumLock off or any of Shift/Ctrl/Alt/AltGr held; distinct = (layout, key, record, mode).".into();
     run.assumptions = vec!["De105 numpad decimal: '.' (what the crate types) and ',' (what DIN keyboards print) are both accepted; the statement names no separator per layout".into()];
     for l in 0..N_LAYOUTS {
         for k in C15_KEYS {
@@ -672,6 +696,7 @@ pub fn c15(run: &mut Run) {
         run.sample(|| json!({"layout":LAYOUT_NAMES[l],"key":key_name(k),"numlock+lshift":out_str(&a),"rctrl (NumLock off, Map)":out_str(&b)}));
     }
     run.part("cells", json!({"cells": N_LAYOUTS * 23 * 512 * 2}));
+    c15_histories(run);
     run.exhaustive = true;
 }
 
@@ -813,6 +838,210 @@ pub fn c17(run: &mut Run) {
     run.exhaustive = true;
 }
 
+
+// =======================================================================================
+// Event-history layers (C09, C10, C15): the same relations observed through
+// Keyboard::process_keyevent, with the modifier state defined by a generated history of
+// key events (what is *held* per the history), not by a constructed Modifiers record.
+// =======================================================================================
+use crate::model::mods as mm;
+
+type Hist = Vec<(KeyCode, KeyState)>;
+
+fn hist_text(h: &[(KeyCode, KeyState)]) -> String {
+    h.iter().map(|(k, s)| format!("{:?}{}", k, match s { KeyState::Down => "↓", KeyState::Up => "↑", KeyState::SingleShot => "·" })).collect::<Vec<_>>().join(" ")
+}
+fn hist_json(h: &[(KeyCode, KeyState)]) -> Value {
+    Value::Array(h.iter().map(|(k, s)| json!([key_name(*k), state_name(*s)])).collect())
+}
+fn hist_from_json(v: &Value) -> Hist {
+    v.as_array()
+        .map(|a| a.iter().filter_map(|e| Some((key_by_name(e.get(0)?.as_str()?)?, state_by_name(e.get(1)?.as_str()?)?))).collect())
+        .unwrap_or_default()
+}
+
+/// Run `h` then press `k` on a fresh Keyboard<AnyLayout(l), Set2>; returns what the press
+/// returned and the model's modifier record at that moment.
+fn press_after(l: usize, h: &[(KeyCode, KeyState)], k: KeyCode, mode: HandleControl) -> (Result<Option<DecodedKey>, String>, u16) {
+    let mut model = mm::INITIAL_MODS;
+    for (hk, hs) in h {
+        model = mm::step(model, *hk, *hs);
+    }
+    let r = guard(|| {
+        let mut kb = Keyboard::new(ScancodeSet2::new(), any_layout(l), mode);
+        for (hk, hs) in h {
+            kb.process_keyevent(KeyEvent::new(*hk, *hs));
+        }
+        kb.process_keyevent(KeyEvent::new(k, KeyState::Down))
+    });
+    (r, model)
+}
+
+/// all sequences of length 0..=max over an alphabet of events
+fn all_sequences(alpha: &[(KeyCode, KeyState)], max: usize) -> Vec<Hist> {
+    let mut all: Vec<Hist> = vec![vec![]];
+    let mut frontier: Vec<Hist> = vec![vec![]];
+    for _ in 0..max {
+        let mut next = Vec::new();
+        for s in &frontier {
+            for a in alpha {
+                let mut t = s.clone();
+                t.push(*a);
+                next.push(t);
+            }
+        }
+        all.extend(next.iter().cloned());
+        frontier = next;
+    }
+    all
+}
+
+fn hist_case(check: &str, l: usize, h: &[(KeyCode, KeyState)], k: KeyCode, mode: HandleControl) -> Value {
+    json!({"kind":"layout_history","check":check,"layout":LAYOUT_NAMES[l],"history":hist_json(h),"text":hist_text(h),"key":key_name(k),"mode":mode_name(mode)})
+}
+fn opt_out_str(r: &Result<Option<DecodedKey>, String>) -> String {
+    match r {
+        Ok(o) => odk_str(o),
+        Err(p) => panic_sig(p),
+    }
+}
+
+fn c09_hist_case(run: &mut Run, l: usize, h: &[(KeyCode, KeyState)], k: KeyCode, mode: HandleControl, letter: char) {
+    run.eval(1);
+    let (got, model) = press_after(l, h, k, mode);
+    let fa = facts(model);
+    let want = if mode == HandleControl::MapLettersToUnicode && fa.ctrl && model & (M_LALT | M_RALT) == 0 {
+        DecodedKey::Unicode(char::from_u32(letter as u32 & 0x1F).unwrap())
+    } else if !fa.ctrl || mode == HandleControl::Ignore {
+        // Ctrl handling changes nothing: what the layout types for these held modifiers with
+        // mapping disabled and Ctrl released
+        match out(l, Form::Bare, k, strip_ctrl(model), HandleControl::Ignore) {
+            Ok(d) => d,
+            Err(_) => return,
+        }
+    } else {
+        return;
+    };
+    if got != Ok(Some(want)) {
+        run.violation(Violation {
+            sig: format!("C09:history:{}:[{}]:{:?}:{}:want={}:got={}", LAYOUT_NAMES[l], hist_text(h).replace(' ', "."), k, mode_name(mode), dk_str(&want), opt_out_str(&got)),
+            what: format!("{}: after the key events [{}] (held per the history: {}), pressing {:?} (types '{}') in mode {} yields {}; required {}", LAYOUT_NAMES[l], hist_text(h), mods_str(model), k, letter, mode_name(mode), opt_out_str(&got), dk_str(&want)),
+            case: hist_case("C09", l, h, k, mode),
+        });
+    }
+}
+
+fn c09_histories(run: &mut Run) {
+    use KeyCode::*;
+    use KeyState::*;
+    let alpha = [(LControl, Down), (LControl, Up), (RControl, Down), (RControl, Up), (LShift, Down), (LShift, Up), (CapsLock, Down), (F1, Down)];
+    let seqs = all_sequences(&alpha, 4);
+    let mut n = 0u64;
+    for l in 0..N_LAYOUTS {
+        let letters: Vec<(KeyCode, char)> = ALL_KEYS.iter().filter_map(|k| letter_of(l, *k).map(|c| (*k, c))).collect();
+        for (si, h) in seqs.iter().enumerate() {
+            let mut model = mm::INITIAL_MODS;
+            for (hk, hs) in h { model = mm::step(model, *hk, *hs); }
+            for mode in MODES {
+                // all letters for short histories, a rotating sample of 4 for the longest ones
+                let pick: Vec<&(KeyCode, char)> = if h.len() <= 3 { letters.iter().collect() } else { (0..4).map(|j| &letters[(si * 7 + j * 5) % letters.len()]).collect() };
+                for (k, c) in pick {
+                    c09_hist_case(run, l, h, *k, mode, *c);
+                    n += 1;
+                    if facts(model).ctrl { run.nontrivial_enum(1); }
+                }
+            }
+            if l == 3 && si % 1200 == 77 {
+                let hh = h.clone();
+                let (k, c) = letters[si % letters.len()];
+                let (got, m) = press_after(l, &hh, k, HandleControl::MapLettersToUnicode);
+                run.sample(|| json!({"layer":"event-history","layout":LAYOUT_NAMES[l],"history":hist_text(&hh),"held_per_history":mods_str(m),"press":key_name(k),"types":c.to_string(),"mode":"Map","returned":opt_out_str(&got)}));
+            }
+        }
+    }
+    run.part("event_histories", json!({"alphabet": alpha.iter().map(|(k,s)| format!("{:?} {}", k, state_name(*s))).collect::<Vec<_>>(), "sequences": seqs.len(), "cases": n}));
+}
+
+fn c10_hist_case(run: &mut Run, l: usize, h: &[(KeyCode, KeyState)], k: KeyCode, mode: HandleControl, cased: Option<(char, char)>) {
+    run.eval(1);
+    let (got, model) = press_after(l, h, k, mode);
+    let fa = facts(model);
+    let want = match cased {
+        Some((b, s)) => DecodedKey::Unicode(if fa.shift ^ fa.caps { s } else { b }),
+        None => match out(l, Form::Bare, k, model & !M_CAPSLOCK, mode) {
+            Ok(d) => d,
+            Err(_) => return,
+        },
+    };
+    if got != Ok(Some(want)) {
+        run.violation(Violation {
+            sig: format!("C10:history:{}:[{}]:{:?}:{}:want={}:got={}", LAYOUT_NAMES[l], hist_text(h).replace(' ', "."), k, mode_name(mode), dk_str(&want), opt_out_str(&got)),
+            what: format!("{}: after the key events [{}] (per the history: CapsLock {}, Shift {}), pressing {:?} yields {}; required {} ({})", LAYOUT_NAMES[l], hist_text(h), if fa.caps { "on" } else { "off" }, if fa.shift { "held" } else { "released" }, k, opt_out_str(&got), dk_str(&want), if cased.is_some() { "cased-letter key: CapsLock inverts Shift" } else { "not a cased-letter key: CapsLock must not matter" }),
+            case: hist_case("C10", l, h, k, mode),
+        });
+    }
+}
+
+fn c10_histories(run: &mut Run) {
+    use KeyCode::*;
+    use KeyState::*;
+    let alpha = [(CapsLock, Down), (CapsLock, Up), (LShift, Down), (LShift, Up), (RShift, Down), (RShift, Up)];
+    let seqs = all_sequences(&alpha, 4);
+    let mut n = 0u64;
+    for l in 0..N_LAYOUTS {
+        let keys: Vec<(KeyCode, Option<(char, char)>)> = ALL_KEYS.iter().filter(|k| !mm::is_modifier_key(**k)).map(|k| (*k, cased_letter(l, *k))).collect();
+        for (si, h) in seqs.iter().enumerate() {
+            // every key for histories up to 2 events, a rotating sample of 12 keys beyond
+            let pick: Vec<&(KeyCode, Option<(char, char)>)> = if h.len() <= 2 { keys.iter().collect() } else { (0..12).map(|j| &keys[(si * 11 + j * 9) % keys.len()]).collect() };
+            for (k, cased) in pick {
+                c10_hist_case(run, l, h, *k, HandleControl::Ignore, *cased);
+                n += 1;
+                if cased.is_some() { run.nontrivial_enum(1); }
+            }
+            if l == 2 && si % 400 == 33 {
+                let hh = h.clone();
+                let (k, cased) = keys[(si * 3) % keys.len()];
+                let (got, m) = press_after(l, &hh, k, HandleControl::Ignore);
+                run.sample(|| json!({"layer":"event-history","layout":LAYOUT_NAMES[l],"history":hist_text(&hh),"per_history":mods_str(m),"press":key_name(k),"cased_letter_key":cased.map(|(b,s)| format!("{}/{}",b,s)),"returned":opt_out_str(&got)}));
+            }
+        }
+    }
+    run.part("event_histories", json!({"sequences": seqs.len(), "cases": n}));
+}
+
+fn c15_hist_case(run: &mut Run, l: usize, h: &[(KeyCode, KeyState)], k: KeyCode, mode: HandleControl) {
+    run.eval(1);
+    let (got, model) = press_after(l, h, k, mode);
+    let Some(accepted) = c15_accepted(l, k, model, mode) else { return };
+    let ok = matches!(&got, Ok(Some(d)) if accepted.contains(d));
+    if !ok {
+        let want = accepted.iter().map(dk_str).collect::<Vec<_>>().join("|");
+        run.violation(Violation {
+            sig: format!("C15:history:{}:[{}]:{:?}:{}:want={}:got={}", LAYOUT_NAMES[l], hist_text(h).replace(' ', "."), k, mode_name(mode), want, opt_out_str(&got)),
+            what: format!("{}: after the key events [{}] (per the history: {}), pressing {:?} in mode {} yields {}; required: {}", LAYOUT_NAMES[l], hist_text(h), mods_str(model), k, mode_name(mode), opt_out_str(&got), want),
+            case: hist_case("C15", l, h, k, mode),
+        });
+    }
+}
+
+fn c15_histories(run: &mut Run) {
+    let mut n = 0u64;
+    for l in 0..N_LAYOUTS {
+        for bits in 0..N_MODS {
+            let h: Hist = mm::witness_history(bits);
+            for mode in MODES {
+                for k in C15_KEYS {
+                    if k == KeyCode::NumpadLock { continue; } // answered by the decoder itself (C14)
+                    c15_hist_case(run, l, &h, k, mode);
+                    n += 1;
+                    run.nontrivial_enum(1);
+                }
+            }
+        }
+    }
+    run.part("event_histories", json!({"histories": "witness history of each of the 512 modifier records", "cases": n}));
+}
+
 // =======================================================================================
 // replay
 // =======================================================================================
@@ -832,6 +1061,19 @@ pub fn replay(run: &mut Run, case: &Value) -> bool {
         }
         "predicate" => {
             c11_predicates(run, case["mods"].as_u64().unwrap_or(0) as u16);
+            true
+        }
+        "layout_history" => {
+            let l = layout_by_name(case["layout"].as_str().unwrap_or("")).unwrap_or(0);
+            let Some(k) = key_by_name(case["key"].as_str().unwrap_or("")) else { return false };
+            let h = hist_from_json(&case["history"]);
+            let mode = mode_by_name(case["mode"].as_str().unwrap_or("Ignore")).unwrap_or(HandleControl::Ignore);
+            match case["check"].as_str().unwrap_or("") {
+                "C09" => { if let Some(c) = letter_of(l, k) { c09_hist_case(run, l, &h, k, mode, c) } }
+                "C10" => c10_hist_case(run, l, &h, k, mode, cased_letter(l, k)),
+                "C15" => c15_hist_case(run, l, &h, k, mode),
+                _ => return false,
+            }
             true
         }
         "layout_cell" => {
